@@ -16,6 +16,7 @@ package dtls
 import (
 	"bytes"
 	"crypto/ecdsa"
+	"crypto/sha256"
 	"crypto/x509"
 	"encoding/json"
 	"fmt"
@@ -528,6 +529,32 @@ func TestVerifCerts(t *testing.T) {
 			secret = append([]byte(nil), ds[len(ds)-1].secret...)
 			secret[rng.Intn(len(secret))] ^= 1 << uint(rng.Intn(8))
 		}
+		if i%7 == 5 && len(ds) > 0 {
+			// a secret RELATED to an earlier one the way keyed-hash constructions normalise their keys: zero-padded at either end,
+			// shortened by a trailing byte, or - for secrets longer than a hash block - replaced by its digest.  Different secrets all.
+			prev := ds[len(ds)-1-rng.Intn(minInt(len(ds), 9))].secret
+			switch (i / 7) % 6 {
+			case 0:
+				secret = append(append([]byte(nil), prev...), 0)
+			case 1:
+				secret = append(append([]byte(nil), prev...), 0, 0, 0, 0)
+			case 2:
+				secret = append([]byte{0}, prev...)
+			case 3:
+				if len(prev) > 1 {
+					secret = append([]byte(nil), prev[:len(prev)-1]...)
+				}
+			case 4:
+				long := make([]byte, 100)
+				rng.Read(long)
+				ds = append(ds, derive(long))
+				h := sha256.Sum256(long)
+				secret = h[:]
+			case 5:
+				h := sha256.Sum256(prev)
+				secret = h[:]
+			}
+		}
 		a, b := derive(secret), derive(append([]byte(nil), secret...))
 		same := bytes.Equal(a.cpub, b.cpub) && bytes.Equal(a.spub, b.spub) && a.cser == b.cser && a.sser == b.sser &&
 			a.ccn == b.ccn && a.scn == b.scn && a.random == b.random
@@ -571,4 +598,11 @@ func TestVerifCerts(t *testing.T) {
 	out.Emit(map[string]any{"kind": "summary", "secrets": len(ds), "pairs": pairs, "violations": bad,
 		"sample": map[string]any{"secret": fmt.Sprintf("%x", ds[0].secret), "clientCN": ds[0].ccn, "serverCN": ds[0].scn,
 			"helloRandom": fmt.Sprintf("%x", ds[0].random[:])}})
+}
+
+func minInt(a, b int) int {
+	if a < b {
+		return a
+	}
+	return b
 }
